@@ -77,6 +77,11 @@ pub struct WorldSpec {
     pub resources: BTreeMap<Vec<Vec<u8>>, ResSpec>,
     pub clients: Vec<ClientSpec>,
     pub max_events: u64,
+    /// per mille of application calls that take simulated time (split-phase:
+    /// other datagrams are processed in between; datagrams for the same cache
+    /// key wait, because the API gives no meaning to overlapping exchanges on
+    /// one key)
+    pub slow_app_pm: u64,
 }
 
 // ---------------------------------------------------------------------------
@@ -662,6 +667,7 @@ enum Ev {
     Timer { client: usize, lane: usize, gen: u64 },
     Start { client: usize, lane: usize },
     Resume { client: usize, lane: usize },
+    AppDone { from: usize, pending: Box<Pending>, key: (Ep, u8, Vec<String>) },
 }
 
 pub struct WorldResult {
@@ -720,6 +726,9 @@ pub fn run_world(spec: &WorldSpec, ch: &mut Ch, verbose: bool) -> WorldResult {
     }
     let mut cap_hit = false;
     let mut last_activity = 0u64;
+    let mut ready: std::collections::VecDeque<(usize, Tag, Vec<u8>, bool, bool)> = std::collections::VecDeque::new();
+    let mut busy: std::collections::BTreeSet<(Ep, u8, Vec<String>)> = std::collections::BTreeSet::new();
+    let mut waiting: BTreeMap<(Ep, u8, Vec<String>), std::collections::VecDeque<(usize, Tag, Vec<u8>, bool, bool)>> = BTreeMap::new();
     while let Some((_seq, ev)) = q.pop() {
         if q.popped > spec.max_events {
             cap_hit = true;
@@ -727,7 +736,7 @@ pub fn run_world(spec: &WorldSpec, ch: &mut Ch, verbose: bool) -> WorldResult {
             break;
         }
         let now = q.now();
-        if matches!(ev, Ev::ToServer { .. } | Ev::ToClient { .. }) {
+        if matches!(ev, Ev::ToServer { .. } | Ev::ToClient { .. } | Ev::AppDone { .. }) {
             // stale retransmission timers far in the future must not count
             // as simulated time covered
             last_activity = now;
@@ -762,23 +771,16 @@ pub fn run_world(spec: &WorldSpec, ch: &mut Ch, verbose: bool) -> WorldResult {
                 } else {
                     bytes
                 };
-                if server.dead {
-                    continue;
-                }
-                stats.hit("srv.datagrams");
-                let reply = server.on_datagram(now, c.ep, tag, &bytes, corrupted, net_dup, &mut stats, &mut trace, &mut shapes);
-                if let Some(rb) = reply {
-                    let for_arrival = server.log.len() - 1;
-                    let rb = if c.via_proxy {
-                        match proxy_forward(&rb, &mut stats, &mut violations, &mut shapes) {
-                            Some(b) => b,
-                            None => continue,
-                        }
-                    } else {
-                        rb
-                    };
-                    for d in net_send(&c.net, &rb, ch, &mut stats) {
-                        q.after(d.delay, Ev::ToClient { to: from, bytes: d.bytes, for_arrival, corrupted: d.corrupted });
+                ready.push_back((from, tag, bytes, corrupted, net_dup));
+            }
+            Ev::AppDone { from, pending, key } => {
+                stats.hit("srv.slow-app.done");
+                let reply = server.finish(*pending, now, &mut stats, &mut trace);
+                send_reply(spec, &server, from, reply, &mut q, ch, &mut stats, &mut violations, &mut shapes);
+                busy.remove(&key);
+                if let Some(wq) = waiting.remove(&key) {
+                    for x in wq {
+                        ready.push_back(x);
                     }
                 }
             }
@@ -839,6 +841,40 @@ pub fn run_world(spec: &WorldSpec, ch: &mut Ch, verbose: bool) -> WorldResult {
                 }
             }
         }
+        while let Some((from, tag, bytes, corrupted, net_dup)) = ready.pop_front() {
+            if server.dead {
+                break;
+            }
+            let ep = spec.clients[from].ep;
+            // the cache key as the handler forms it
+            let key: Option<(Ep, u8, Vec<String>)> = refparse::accept(&bytes).map(|f| {
+                let segs: Option<Vec<String>> = f.opt_values(11).into_iter().map(|sg| String::from_utf8(sg).ok()).collect();
+                (ep, method_ord(f.code), segs.unwrap_or_default())
+            });
+            if let Some(k) = &key {
+                if busy.contains(k) {
+                    stats.hit("srv.slow-app.same-key-waited");
+                    waiting.entry(k.clone()).or_default().push_back((from, tag, bytes, corrupted, net_dup));
+                    continue;
+                }
+            }
+            stats.hit("srv.datagrams");
+            match server.begin(now, ep, tag, &bytes, corrupted, net_dup, &mut stats, &mut trace, &mut shapes) {
+                Step::Done(reply) => send_reply(spec, &server, from, reply, &mut q, ch, &mut stats, &mut violations, &mut shapes),
+                Step::NeedsApp(p) => {
+                    if spec.slow_app_pm > 0 && key.is_some() && ch.chance(spec.slow_app_pm, 1000, "srv.slow-app") {
+                        stats.hit("fault.slow-app-split");
+                        let d = (1 + ch.below(30, "srv.slow-app.ms")) * MS;
+                        let k = key.unwrap();
+                        busy.insert(k.clone());
+                        q.after(d, Ev::AppDone { from, pending: p, key: k });
+                    } else {
+                        let reply = server.finish(*p, now, &mut stats, &mut trace);
+                        send_reply(spec, &server, from, reply, &mut q, ch, &mut stats, &mut violations, &mut shapes);
+                    }
+                }
+            }
+        }
         if server.dead {
             break;
         }
@@ -846,6 +882,24 @@ pub fn run_world(spec: &WorldSpec, ch: &mut Ch, verbose: bool) -> WorldResult {
     let sim_ns = last_activity;
     violations.append(&mut server.violations);
     WorldResult { server, lanes, stats, trace, sim_ns, violations, shapes, cap_hit }
+}
+
+/// Sends a reply the server produced for the datagram logged last.
+fn send_reply(spec: &WorldSpec, server: &Server, from: usize, reply: Option<Vec<u8>>, q: &mut Queue<Ev>, ch: &mut Ch, stats: &mut Stats, violations: &mut Vec<Violation>, shapes: &mut Vec<u64>) {
+    let Some(rb) = reply else { return };
+    let c = &spec.clients[from];
+    let for_arrival = server.log.len() - 1;
+    let rb = if c.via_proxy {
+        match proxy_forward(&rb, stats, violations, shapes) {
+            Some(b) => b,
+            None => return,
+        }
+    } else {
+        rb
+    };
+    for d in net_send(&c.net, &rb, ch, stats) {
+        q.after(d.delay, Ev::ToClient { to: from, bytes: d.bytes, for_arrival, corrupted: d.corrupted });
+    }
 }
 
 fn apply_outs(outs: Vec<Out>, client: usize, lane: usize, spec: &WorldSpec, q: &mut Queue<Ev>, ch: &mut Ch, stats: &mut Stats) {
